@@ -73,8 +73,9 @@ def gen_spec(rng, fmt):
         spec['ny'] = 2
         spec['nt'] = rng.randrange(2, 4)
     if fmt == 'uamiv':
-        spec['species'] = rng.sample(['O3', 'NO2', 'CO', 'PAR', 'ISOP', 'A1B2C3D4E5'],
-                                     rng.randrange(1, 5))
+        spec['species'] = rng.sample(['O3', 'NO2', 'CO', 'PAR', 'ISOP', 'A1B2C3D4E5', 'NO', 'NO3',
+                                      'HNO3', 'PNO3', 'HONO', 'N2O5', 'O', 'CO2'],
+                                     rng.randrange(1, 6))
         spec['name'] = rng.choice(['AVERAGE', 'AVERAGE', 'EMISSIONS', 'INSTANT', 'AIRQUALITY'])
         if spec['name'] == 'EMISSIONS':
             spec['nz'] = 1           # gridded emissions are surface files
@@ -214,6 +215,12 @@ def gen_op(rng, st):
         return {'op': 'collect'}
     if k < 86 and st.n > c['steps'] // 2:
         return {'op': 'close_record'}
+    if rng.random() < 0.10:
+        # disk fault: the k-th read() of the record reader's file raises once
+        # (EIO / EINTR); the interrupted access is then retried
+        return {'op': 'faulty_read', 'fail_at': rng.choice([1, 1, 2, 3, 4, 6, 9, 14, 25]),
+                'key': rng.choice(keys),
+                'errno': rng.choice(['EIO', 'EINTR', 'short'])}
     if rng.random() < 0.08:
         # readers accept a path, a file object or a RecordFile; here a RecordFile
         # that was already used (advanced by some records) is handed to a new reader
@@ -582,6 +589,73 @@ def _apply(st, op):
                                                 np.asarray(g_).ravel()[:3].tolist(),
                                                 np.asarray(e_).ravel()[:3].tolist()),
                          what='iterator', family='r')
+    elif o == 'faulty_read':
+        # An I/O fault inside a variable access of an (already open) record reader.
+        # The property is about valid files and says nothing about faults, so the
+        # relaxation is deliberate and narrow: only an access that RAISED (the
+        # reader reported the failure) is followed up, and the follow-up is the
+        # property itself: a later access on the same reader must again expose
+        # the file's data (or raise) - never a half-filled variable.
+        import errno as _errno
+        import io
+        from PseudoNetCDF.camxfiles import Readers
+
+        class FaultyFile(io.FileIO):
+            """a real file whose k-th read after arm() fails once"""
+            def __init__(self, p):
+                io.FileIO.__init__(self, p, 'rb')
+                self._k = None
+                self._n = 0
+                self.fired = False
+
+            def arm(self, k):
+                self._k = k
+                self._n = 0
+
+            def read(self, size=-1):
+                if self._k is not None and not self.fired:
+                    self._n += 1
+                    if self._n == self._k:
+                        self.fired = True
+                        raise OSError(_errno.EIO, 'injected EIO')
+                return io.FileIO.read(self, size)
+        ff = FaultyFile(path)
+        try:
+            cls = getattr(Readers, fmt)
+            r2 = cls(ff) if fmt == 'uamiv' else cls(ff, spec['ny'], spec['nx'])
+            key = op['key'] if op['key'] in list(r2.variables.keys()) else data_keys(r2)[0]
+        except BaseException as e:
+            return {'note': 'open raised ' + type(e).__name__}
+        ff.arm(op['fail_at'])
+        first = None
+        try:
+            first, _ = _guard(lambda: np.array(r2.variables[key][...]))
+        except Timeout:
+            viol('reader-does-not-terminate', 'variable read with an injected read fault',
+                 family='r')
+        except BaseException as e:
+            first = e
+        if not ff.fired:
+            return {'note': 'fault not reached'}
+        w.fault('read_fault_EIO_inside_access')
+        if not isinstance(first, BaseException):
+            w.probe('read_fault_swallowed_by_reader')
+            return {'note': 'fault swallowed (not judged)'}
+        w.probe('read_fault_reported_then_retried')
+        exp = np.array(fresh('m').variables[key][...])
+        try:
+            second, _ = _guard(lambda: np.array(r2.variables[key][...]))
+        except Timeout:
+            viol('reader-does-not-terminate', 'retry after a read fault', family='r')
+        except BaseException as e:
+            return {'note': 'retry raised ' + type(e).__name__}
+        if not squeeze_eq(second, exp):
+            viol('readers-disagree',
+                 'retry after a reported read fault (EIO at read #%d of the access, which raised '
+                 '%s): %s of the record reader now holds %s... where the memmap reader holds '
+                 '%s...' % (op['fail_at'], type(first).__name__, key,
+                            np.asarray(second).ravel()[-3:].tolist(), exp.ravel()[-3:].tolist()),
+                 what='data-after-read-fault', family='r')
     elif o == 'shared_handle':
         from PseudoNetCDF.camxfiles.FortranFileUtil import OpenRecordFile
         from PseudoNetCDF.camxfiles import Readers
